@@ -5,6 +5,8 @@ import (
 	"errors"
 	"math/rand"
 	"reflect"
+	"runtime"
+	"sync"
 	"time"
 
 	"github.com/bluenviron/gomavlib/v3/pkg/dialect"
@@ -21,10 +23,19 @@ type failWriter struct {
 	calls  int
 	failAt int
 	failed bool // set when the injected failure fired during the current entry
+	yield  bool // the sink is slow: it consumes the data in two halves with other goroutines running in between
 }
 
 func (w *failWriter) Write(p []byte) (int, error) {
 	w.calls++
+	if w.yield {
+		h := len(p) / 2
+		w.buf.Write(p[:h])
+		runtime.Gosched()
+		time.Sleep(20 * time.Microsecond)
+		w.buf.Write(p[h:])
+		return len(p), nil
+	}
 	if w.failAt > 0 && w.calls == w.failAt {
 		w.failed = true
 		// a failing write may have put part of the data out - or all of it (io.Writer allows n == len(p) with an error,
@@ -213,7 +224,7 @@ func cmdTlog(o opts) {
 				es = append(es, M{"sec": le(uint64(e.sec), 8), "nsec": e.nsec, "f": e.f, "d": e.d, "vals": vals,
 					"ok": err == nil && !pan, "panic": pan, "inj": fw.failed,
 					"reported_injected": err != nil && errors.Is(err, errSentinel),
-					"grew": B(append([]byte{}, fw.buf.Bytes()[before:]...))})
+					"grew":              B(append([]byte{}, fw.buf.Bytes()[before:]...))})
 				if fw.failed {
 					break // after a transport failure the file is the application's problem
 				}
@@ -232,6 +243,57 @@ func cmdTlog(o opts) {
 				}
 			}
 		}
+	}
+	// several logs written at the same time, each by its own writer and goroutine into its own slow sink (independent writers
+	// must not share anything): every log is then judged like the others
+	nconc, nent := 8, 60
+	if thorough {
+		nconc, nent = 16, 300
+	}
+	type concLog struct {
+		entries []tentry
+		es      []M
+		file    []byte
+	}
+	logs := make([]concLog, nconc)
+	for i := range logs {
+		for k := 0; k < nent; k++ {
+			logs[i].entries = append(logs[i].entries, genEntry(r, nil, com, ix, small))
+		}
+	}
+	var wg sync.WaitGroup
+	for i := range logs {
+		wg.Add(1)
+		go func(lg *concLog) {
+			defer wg.Done()
+			fw := &failWriter{yield: true}
+			w := &tlog.Writer{ByteWriter: fw}
+			if err := w.Initialize(); err != nil {
+				return
+			}
+			for _, e := range lg.entries {
+				before := fw.buf.Len()
+				t := time.Unix(e.sec, int64(e.nsec))
+				var err error
+				pan := func() (p bool) {
+					defer func() {
+						if x := recover(); x != nil {
+							p = true
+						}
+					}()
+					err = w.Write(&tlog.Entry{Time: t, Frame: e.goFrame()})
+					return false
+				}()
+				lg.es = append(lg.es, M{"sec": le(uint64(e.sec), 8), "nsec": e.nsec, "f": e.f, "d": e.d, "vals": [][]B{},
+					"ok": err == nil && !pan, "panic": pan, "inj": false, "reported_injected": false,
+					"grew": B(append([]byte{}, fw.buf.Bytes()[before:]...))})
+			}
+			lg.file = append([]byte{}, fw.buf.Bytes()...)
+		}(&logs[i])
+	}
+	wg.Wait()
+	for i := range logs {
+		rec.Put(M{"e": "TLOGW", "dl": []int{}, "entries": logs[i].es, "fail_at": 0, "bad_at": -1, "concurrent": nconc})
 	}
 	rec.Close()
 }
